@@ -179,7 +179,7 @@ def _nnf(formulas):
     return out
 
 
-def ground(formulas, rounds=3, cap=400):
+def ground(formulas, rounds=3, cap=3000):
     """formulas: list of z3 Bool (to be conjoined). Returns (qf_formulas, stats)."""
     cur = _nnf(formulas)
     stats = {'instances': 0, 'rounds': 0}
